@@ -26,6 +26,7 @@ CONSTANTS
   Weak_RejectNotBlacklisted = FALSE
   Weak_FormatNotBlacklisted = FALSE
   Weak_NoSyncerLevelCheck = FALSE
+  Weak_RemovePeerClearsBlacklist = FALSE
 INIT Init
 NEXT Next
 INVARIANTS TrustedOnly VerifiedBeforeDone InOrder AsRecorded RefetchHonoured NeverReused
